@@ -209,7 +209,7 @@ def fmt_has_sparse(fmt: str) -> bool:
 def gen_problems(seed: int, tier: str):
     """(assignment, formats) with a compressed level in the output format; deterministic in seed."""
     rng = random.Random(f"C02-problems:{seed}")
-    cap = 9 if tier == "quick" else 40
+    cap = 9 if tier == "quick" else 120
     problems = []
     templates = list(sweep.TEMPLATES) + EXTRA_TEMPLATES
     for a in templates:
@@ -239,7 +239,7 @@ def gen_problems(seed: int, tier: str):
 def gen_inputs(seed: int, tier: str, pi: int, a: str):
     """Inputs of problem number [pi]: independent of sharding and of the capacity."""
     rng = random.Random(f"C02-inputs:{seed}:{pi}")
-    n_sizes = 3 if tier == "quick" else 4
+    n_sizes = 3 if tier == "quick" else 5
     out = []
     sizes = {}
     for sizes in sweep.index_sizes_choices(a, rng, n_sizes):
@@ -364,6 +364,14 @@ def raw_sane(r) -> bool:
                     return False
                 if pos[0] != 0 or any(a > b for a, b in zip(pos, pos[1:])) or pos[-1] != len(crd):
                     return False
+                # unsorted / duplicated / out-of-range coordinates make OTHER kernels run off their
+                # arrays (that is what "can be used as an input" is about): do not hand those back
+                for q in range(cnt):
+                    seg = crd[pos[q] : pos[q + 1]]
+                    if any(a >= b for a, b in zip(seg, seg[1:])):
+                        return False
+                if any(not (0 <= c < d) for c in crd):
+                    return False
                 cnt = len(crd)
         return r["vals"] is not None and cnt <= len(r["vals"])
     except Exception:
@@ -383,7 +391,7 @@ def machine_final_sane(final, complete) -> bool:
 
 def gen_operator_cases(seed: int, tier: str):
     rng = random.Random(f"C02-operators:{seed}")
-    n = 120 if tier == "quick" else 900
+    n = 120 if tier == "quick" else 2000
     cases = []
     for _ in range(n):
         op = rng.choice(["+", "-", "*", "@", "@", "s*", "*s"])
